@@ -18,7 +18,8 @@ from common import coq_list, coq_N, coq_Z
 
 IMPORTS = 'From XV Require Import Base Datatypes.'
 DEFS = ('Definition opt_list (l : list (option val)) : list val := '
-        'flat_map (fun o => match o with Some v => [v] | None => [] end) l.\n')
+        'flat_map (fun o => match o with Some v => [v] | None => [] end) l.\n'
+        'Definition BIG : Z := (10 ^ 1000)%Z.\n')
 
 BOUNDED = {
     'xs:long': (-2 ** 63, 2 ** 63 - 1), 'xs:int': (-2 ** 31, 2 ** 31 - 1), 'xs:short': (-2 ** 15, 2 ** 15 - 1),
@@ -26,7 +27,7 @@ BOUNDED = {
     'xs:unsignedLong': (0, 2 ** 64 - 1), 'xs:unsignedInt': (0, 2 ** 32 - 1), 'xs:unsignedShort': (0, 2 ** 16 - 1),
     'xs:unsignedByte': (0, 255), 'xs:nonPositiveInteger': (None, 0), 'xs:negativeInteger': (None, -1),
 }
-BIG = 10 ** 40
+BIG = 'BIG'      # a Coq constant (10^1000) that stands for "no bound": every catalogue value is far smaller
 
 
 def coq_str(s):
@@ -41,7 +42,7 @@ def coq_type(t, version='1.0'):
             return 'TInteger'
         if n in BOUNDED:
             lo, hi = BOUNDED[n]
-            return '(TBounded %s %s)' % (coq_Z(-BIG if lo is None else lo), coq_Z(BIG if hi is None else hi))
+            return '(TBounded %s %s)' % ('(- BIG)%Z' if lo is None else coq_Z(lo), 'BIG' if hi is None else coq_Z(hi))
         if n == 'xs:decimal':
             return 'TDecimal'
         if n == 'xs:boolean':
@@ -342,7 +343,7 @@ INT_CAT = ['0', '1', '-1', '+1', '007', '-0', '127', '128', '-128', '-129', '255
            '4294967296', '9223372036854775807', '9223372036854775808', '-9223372036854775808', '-9223372036854775809',
            '18446744073709551615', '18446744073709551616', '123456789012345678901234567890', '', ' ', ' 12 ', '\t12\n',
            '1 2', '1_000', '１２', '١٢', '12.0', '1.', '+', '-', '--1', '+-1', '0x10', '1e2', '１', '12 ', ' 12',
-           '1 2', 'true', 'INF', '12a', '٣']
+           '1 2', 'true', 'INF', '12a', '٣', '9' * 400, '-1' + '0' * 320]      # (beyond the range of a float)
 DEC_CAT = ['0.00000000', '0.0000000', '-0.000000000', '0.00000001', '0', '1', '-1', '+1.5', '1.50', '1.', '.5', '-.5', '.', '', ' 1.5 ', '12 1', '1e2', '1E2', 'NaN', 'INF', '1,5',
            '0.000000001', '123456789012345678901234567890.123456789', '00.100', '+', '1..2', '1.2.3', '１.５', '1_0.5',
            '-0', '-0.0', '٣.٥', ' 1.5']
